@@ -11,7 +11,7 @@ import (
 func init() {
 	Register(&PropDef{
 		ID: "C19", QuickRuns: 6400, Level: "exploration",
-		Rule: "one run = 4-20 HTTP requests to /v1/config/network-slices executed by the agent's real handler as simulated tasks (methods GET/PUT/POST/DELETE/PATCH; well-formed documents with every unit and boundary rates 0, 1, 2^63/unit +/- 1, 2^64-1; malformed JSON; body readers that fail or end early; concurrent requests). Oracle: status code, number of WriteHeader calls, and the slice-meter commands that reached the simulated datapath: programmed with the stated unit arithmetic iff the answer is 201, untouched on 4xx / 405. Non-trivial = at least one 201 and one non-201 answer; distinct = different sequence of (method, body class, status).",
+		Rule: "one run = 4-20 HTTP requests to /v1/config/network-slices executed by the agent's real handler as simulated tasks (methods GET/PUT/POST/DELETE/PATCH; well-formed documents with every unit and boundary rates 0, 1, 2^63/unit +/- 1, 2^64-1; malformed JSON, incl. a complete document followed by trailing data; body readers that fail or end early, also right after the complete document; the same document posted again; concurrent requests). Oracle: status code, number of WriteHeader calls, and the slice-meter commands that reached the simulated datapath: programmed with the stated unit arithmetic iff the answer is 201, untouched on 4xx / 405. Non-trivial = at least one 201 and one non-201 answer; distinct = different sequence of (method, body class, status).",
 		Assume: []string{"the HTTP listener is replaced by the simulator; the handler, the JSON decoding and the datapath programming are real"},
 		Real: CommonReal, Simulated: CommonSim,
 		Scenario: scenarioC19,
@@ -62,6 +62,7 @@ func scenarioC19(r *Run) {
 		return lim / 2
 	}
 	n201, nOther := 0, 0
+	havePrev, prevUn, prev := false, "", [4]uint64{}
 	for k := 0; k < 4+r.Ch.Choose(17, "nreq") && r.AgentAlive() && len(r.Violations) == 0; k++ {
 		method := []string{"POST", "PUT", "GET", "DELETE", "PATCH"}[r.Ch.Choose(5, "method")]
 		req := &vsimenv.HTTPReq{Method: method, Path: "/v1/config/network-slices"}
@@ -71,12 +72,28 @@ func scenarioC19(r *Run) {
 		unit := units[un]
 		ul, dl = rate(unit), rate(unit)
 		ulb, dlb = uint64(r.Ch.Choose(1<<20, "ulb")), uint64(r.Ch.Choose(1<<20, "dlb"))
+		if havePrev && r.Ch.Choose(4, "repeat") == 1 {
+			// the configuration service posts the same document again (periodic sync)
+			un, unit, ul, dl, ulb, dlb = prevUn, units[prevUn], prev[0], prev[1], prev[2], prev[3]
+			r.Probe("same-document-posted-again")
+		}
+		havePrev, prevUn, prev = true, un, [4]uint64{ul, dl, ulb, dlb}
 		doc := map[string]any{"sliceName": "s1", "sliceQos": map[string]any{"uplinkMbr": ul, "downlinkMbr": dl, "uplinkBurstSize": ulb, "downlinkBurstSize": dlb}}
 		if un != "" {
 			doc["sliceQos"].(map[string]any)["bitrateUnit"] = un
 		}
 		body, _ := json.Marshal(doc)
-		switch r.Ch.Choose(7, "bodyclass") {
+		switch r.Ch.Choose(9, "bodyclass") {
+		case 7:
+			// a complete document followed by something: malformed as a whole
+			class = "trailing-data"
+			tail := []string{"}", " xyz", string(body), `{"sliceName": "s2", "sliceQos": {"uplinkMbr": `, "]", ",", "\x00"}[r.Ch.Choose(7, "tail")]
+			body = append(append([]byte{}, body...), tail...)
+		case 8:
+			// the stream breaks after the complete document was delivered
+			class = "read-error-at-end"
+			req.Fault, req.Cut = []vsimenv.BodyFault{vsimenv.BodyError, vsimenv.BodyShort}[r.Ch.Choose(2, "endfault")], len(body)
+			r.Fault("http-body-error-after-complete-document")
 		case 1:
 			class = "malformed"
 			body = []byte(`{"sliceName": "s1", "sliceQos": {"uplinkMbr": `)
